@@ -109,7 +109,9 @@ class SmoothConvexLipschitzFunction(Function):
                                                       )
 
         # Add Lipschitz continuity interpolation constraints
-        self.add_constraints_from_one_list_of_points(list_of_points=self.list_of_points,
-                                                     constraint_name="lipschitz_continuity",
-                                                     set_class_constraint_i=self.set_lipschitz_continuity_constraint_i,
-                                                     )
+        if self.M != np.inf:
+            self.add_constraints_from_one_list_of_points(list_of_points=self.list_of_points,
+                                                         constraint_name="lipschitz_continuity",
+                                                         set_class_constraint_i=
+                                                         self.set_lipschitz_continuity_constraint_i,
+                                                         )
